@@ -332,6 +332,15 @@ pub unsafe extern "C" fn read(fd: c_int, buf: *mut c_void, count: size_t) -> ssi
     }
     let c = if d.short > 0 { d.short } else { count };
     vclock::op_cost();
+    if vclock::pure() && !ilog::IN_CHILD.load(std::sync::atomic::Ordering::SeqCst) && blocking_pipe(fd) {
+        // a blocking read of an empty pipe sleeps until a writer acts: it really does, and the virtual clock is charged
+        let mut p = libc::pollfd { fd, events: libc::POLLIN, revents: 0 };
+        if r_poll()(&mut p, 1, 0) == 0 {
+            let t0 = vclock::real_ns();
+            r_poll()(&mut p, 1, -1);
+            vclock::charge_blocked((vclock::real_ns() - t0) as i64);
+        }
+    }
     let r = r_read()(fd, buf, c);
     let e = errno();
     if r > 0 {
@@ -359,7 +368,7 @@ pub unsafe extern "C" fn write(fd: c_int, buf: *const c_void, count: size_t) -> 
     }
     let c = if d.short > 0 { d.short } else { count };
     vclock::op_cost();
-    let r = r_write()(fd, buf, c);
+    let r = if vclock::pure() && !ilog::IN_CHILD.load(std::sync::atomic::Ordering::SeqCst) && blocking_pipe(fd) { pure_blocking_write(fd, buf, c) } else { r_write()(fd, buf, c) };
     let e = errno();
     if r > 0 {
         plan::BYTES_MOVED.fetch_add(r as u64, std::sync::atomic::Ordering::SeqCst);
@@ -370,6 +379,44 @@ pub unsafe extern "C" fn write(fd: c_int, buf: *const c_void, count: size_t) -> 
     }
     set_errno(e);
     r
+}
+
+/// Is `fd` a pipe end in blocking mode?
+unsafe fn blocking_pipe(fd: c_int) -> bool {
+    let fl = libc::syscall(libc::SYS_fcntl, fd, libc::F_GETFL) as i32;
+    if fl < 0 || fl & libc::O_NONBLOCK != 0 {
+        return false;
+    }
+    let mut st: libc::stat = std::mem::zeroed();
+    libc::syscall(libc::SYS_fstat, fd, &mut st as *mut libc::stat) == 0 && (st.st_mode & libc::S_IFMT) == libc::S_IFIFO
+}
+
+/// A blocking write() to a pipe on the deterministic clock.  The kernel's write sleeps whenever the pipe has no free
+/// slot and bytes remain; here the same happens piece by piece (a piece of at most PIPE_BUF bytes never sleeps when
+/// poll reports the pipe writable), so that *whether* the call had to sleep is decided by the state of the pipe and
+/// not by a stop-watch, and what the sleep took is charged to the virtual clock.
+unsafe fn pure_blocking_write(fd: c_int, buf: *const c_void, c: size_t) -> ssize_t {
+    if c == 0 {
+        return r_write()(fd, buf, 0);
+    }
+    let mut done: usize = 0;
+    while done < c {
+        let mut p = libc::pollfd { fd, events: libc::POLLOUT, revents: 0 };
+        let pr = r_poll()(&mut p, 1, 0);
+        if pr == 0 {
+            let t0 = vclock::real_ns();
+            r_poll()(&mut p, 1, -1);
+            vclock::charge_blocked((vclock::real_ns() - t0) as i64);
+            continue;
+        }
+        let n = if p.revents & libc::POLLOUT != 0 { (c - done).min(4096) } else { c - done };
+        let r = r_write()(fd, (buf as *const u8).add(done) as *const c_void, n);
+        if r < 0 {
+            return if done > 0 { done as ssize_t } else { -1 };
+        }
+        done += r as usize;
+    }
+    done as ssize_t
 }
 
 unsafe fn pack_fds(fds: *mut libc::pollfd, n: libc::nfds_t) -> (i64, i64) {
@@ -396,7 +443,17 @@ pub unsafe extern "C" fn poll(fds: *mut libc::pollfd, n: libc::nfds_t, timeout: 
         return -1;
     }
     let r;
-    if vclock::enabled() && timeout > 0 {
+    if vclock::pure() && timeout < 0 {
+        // a wait without a timeout: if nothing is ready it sleeps for as long as it takes, and the virtual clock is charged
+        let r0 = r_poll()(fds, n, 0);
+        if r0 != 0 {
+            r = r0;
+        } else {
+            let t0 = vclock::real_ns();
+            r = r_poll()(fds, n, -1);
+            vclock::charge_blocked((vclock::real_ns() - t0) as i64);
+        }
+    } else if vclock::enabled() && timeout > 0 {
         let cap = vclock::POLL_CAP_MS.load(std::sync::atomic::Ordering::SeqCst).max(0);
         let real_t = (timeout as i64).min(cap) as c_int;
         let t0 = vclock::real_ns();
